@@ -280,6 +280,13 @@ impl DetRuntime {
     }
 }
 
+fn full_err(e: &glaredb_error::DbError) -> String {
+    let s = e.to_string();
+    let mut t: String = s.chars().take(600).collect();
+    t = t.replace('\n', " | ");
+    t
+}
+
 pub fn first_line(e: &dyn std::fmt::Display) -> String {
     let s = e.to_string();
     s.lines().next().unwrap_or("").to_string()
@@ -359,9 +366,9 @@ fn run_case_threaded(case: &Value, tokio_rt: &tokio::runtime::Runtime) -> Value 
         let r = catch_unwind(AssertUnwindSafe(|| {
             tokio_rt.block_on(async {
                 match engine.session().query(sql).await {
-                    Err(e) => json!({"ok": false, "err": first_line(&e), "phase": "plan"}),
+                    Err(e) => json!({"ok": false, "err": first_line(&e), "err_full": full_err(&e), "phase": "plan"}),
                     Ok(mut res) => match res.output.collect().await {
-                        Err(e) => json!({"ok": false, "err": first_line(&e), "phase": "exec"}),
+                        Err(e) => json!({"ok": false, "err": first_line(&e), "err_full": full_err(&e), "phase": "exec"}),
                         Ok(bs) => batches_to_json(&res.output_schema, &bs),
                     },
                 }
@@ -406,7 +413,7 @@ fn run_case_det(case: &Value, tokio_rt: &tokio::runtime::Runtime) -> Value {
         let r = catch_unwind(AssertUnwindSafe(|| {
             let mut res = match tokio_rt.block_on(engine.session().query(sql)) {
                 Ok(r) => r,
-                Err(e) => return json!({"ok": false, "err": first_line(&e), "phase": "plan"}),
+                Err(e) => return json!({"ok": false, "err": first_line(&e), "err_full": full_err(&e), "phase": "plan"}),
             };
             let noop = futures::task::noop_waker();
             let mut cx = Context::from_waker(&noop);
@@ -423,7 +430,7 @@ fn run_case_det(case: &Value, tokio_rt: &tokio::runtime::Runtime) -> Value {
                             break;
                         }
                         Poll::Ready(Err(e)) => {
-                            out = json!({"ok": false, "err": first_line(&e), "phase": "exec"});
+                            out = json!({"ok": false, "err": first_line(&e), "err_full": full_err(&e), "phase": "exec"});
                             break;
                         }
                         Poll::Pending => {}
